@@ -17,7 +17,7 @@ var serveExplain = map[string]string{
 	"C11": "Structural necessary conditions of 'no state leaks between requests': (E7) every leaf field of Request, Response, RequestHeader, ResponseHeader, URI, Args, Cookie and RequestCtx is assigned (or known nil, or reset through its pointee) on every path of the type's reset method including callees, or is in a table of reasoned exemptions (scratch buffers, configuration, self pointers) - a newly added field is a violation until reset or exempted; (R-loop) every variable of the serve loop that survives an iteration is re-assigned before it is read in a later iteration on every path, or the loop provably ends; (R-reset) every path from the handler to the next iteration passes Request.Reset and Response.Reset; (R-ctx) every field of RequestCtx that a handler can set through an exported method and that the serve loop reads (hijack handler, no-response switch, timeout response) is cleared, found zero, or left behind with a replaced ctx on every path to the next request - neither Request.Reset nor Response.Reset touches them; (R-loop-owned, R-pool, R-scratch) the reasons given for exemptions are checked too: a field the serve loop owns is assigned by it before every handler dispatch, every field of a pooled helper object is assigned by its release or its acquire function, and no function uses the old content or length of a scratch buffer. Not decided: that getters return exactly what the current request sent.",
 	"C14": "The sequence of ConnState values the serve loop reports, decided on every path of the loop as an automaton: StateActive only follows New/Idle, StateIdle only follows Active, the handler and the response write happen in Active, an iteration that continues ends in Idle, and StateActive is only reported on a path on which a read of at least one byte succeeded; (R3) every function that runs the serve loop itself and reports states (ServeConn) reports StateNew before serving and, on every path to its return after StateNew was reported (served or turned away), exactly one terminal state - StateHijacked exactly when the loop returned errHijacked, StateClosed otherwise. (R4) at every call of the ConnState hook the connection argument is the enclosing function's own parameter, never a value taken out of it (embedded or type-asserted inner connection), so all reports for one connection carry one value. Not decided: the reports made by the worker pool (C13.R2 decides its terminal action) and cross-goroutine ordering.",
 	"C15": "Structural necessary conditions of graceful shutdown inside the serve loop, on every path: the per-connection idle marker is zero while the handler runs (so Shutdown's idle closer cannot close a busy connection), it is set non-zero after the response before the connection waits for the next request, the stop flag is tested after every response, and (R5) a response that was written into the connection writer is flushed before the writer is dropped whenever the serve function ends with a nil result (shutdown, client stopped sending) - so no answered request loses its response on a graceful end; (R6) in the shutdown code the Done channel is closed only under a false 'already closed' flag and the flag is raised after it, and wherever the channel reference is dropped the flag is lowered again on every path - otherwise the next Serve/Shutdown cycle of the same Server never closes its requests' Done channels; (E1) the open-connection counter Shutdown waits on is exact: ServeConn, serveConnCounted, serveConnCleanup and Serve each have the net effect on it that their contract states, on every path - a connection that is counted down twice lets Shutdown return nil while a handler is still running. (R7) ShutdownWithContext takes Server.mu once, before any return, and gives it back only through a deferred Unlock - an overlapping second Shutdown therefore cannot see the emptied listener list and return nil while the first is still draining. (R8) the idle marker is set only on paths on which the connection writer holds no unflushed response (a connection with a buffered response has its next pipelined request waiting and is not idle; R4 accepts the skipped marker on exactly those paths). Not decided: Shutdown's poll loop and listener handling, liveness, interleavings.",
-	"C16": "Structural necessary conditions for timed-out handlers, on every path of the serve loop's timeoutResponse != nil branch: the response is written from a freshly acquired ctx into which the stored response was copied (R1); the timed-out ctx is never released to the pool by the loop (R2); no per-request field the loop stored on the old ctx is read from the fresh one (R3); (R6) the concurrency slot a timeout wrapper takes from Server.concurrencyCh is taken without blocking (429 otherwise), and it is given back only by code that has run the wrapped handler to its end - in the goroutine that calls it, after the call - exactly once; never by the wrapper's own frame, which returns when the timeout fires while the handler still runs; the semaphore field is read only by code that creates the channel when it is missing (a nil channel would turn every call into a 429); (R7) every bookkeeping field the serve function keeps on the ctx (connection id, connection time, request number, request time) is assigned on every path from each point where the ctx object is acquired or replaced to the handler dispatch, so requests served after a timed-out one see them. Not decided: what the late handler does with the old ctx, scheduling.",
+	"C16": "Structural necessary conditions for timed-out handlers, on every path of the serve loop's timeoutResponse != nil branch: the response is written from a freshly acquired ctx into which the stored response was copied (R1); the timed-out ctx is never released to the pool by the loop (R2); no per-request field the loop stored on the old ctx is read from the fresh one (R3); (R6) the concurrency slot a timeout wrapper takes from Server.concurrencyCh is taken without blocking (429 otherwise), and it is given back only by code that has run the wrapped handler to its end - in the goroutine that calls it, after the call - exactly once; never by the wrapper's own frame, which returns when the timeout fires while the handler still runs; the semaphore field is read only by code that creates the channel when it is missing (a nil channel would turn every call into a 429); (R7) every bookkeeping field the serve function keeps on the ctx (connection id, connection time, request number, request time) is assigned on every path from each point where the ctx object is acquired or replaced to the handler dispatch, so requests served after a timed-out one see them. (R8) no exported RequestCtx method writes to the connection (acquireWriter, or Write on the ctx's conn, through module callees) unless it does so under the ctx's timeout lock after having found timeoutResponse nil, and the timeout response is installed under that same lock - a timed-out handler keeps using its ctx, and after the timeout only the serve loop may write; Not decided: what the late handler does with the old ctx, scheduling.",
 	"C17": "Structural necessary conditions of connection hijacking, on every path: the response is written and flushed before the hand-off unless HijackSetNoResponse is in effect (R1); after 'go hijackConnHandler' the serve function performs no I/O on the connection and releases neither ctx nor the handed-over reader (R3); it returns errHijacked exactly on hand-off paths (R4); hijackConnHandler closes the connection after the user's handler unless KeepHijackedConns and releases the ctx (R5); hijack state a handler put on the ctx without hijacking does not survive into a later request of the connection (R6); every method of the connection wrapper handed to the hijack handler takes data off the connection only through the buffered reader that still holds what the client sent with the hijacking request, never from the raw connection (R7); hijackConnHandler does not recycle the ctx while a connection the handler kept (KeepHijackedConns) still reads through it, which is the case under ReduceMemoryUsage, where the buffered reader reads through a field of the ctx (R8). (R9) every path into the hijack hand-off passes an unconditional SetDeadline(zero) on the connection after any deadline the serve function armed - per-request timeouts make every configuration test of 'is a deadline pending' wrong. Not decided: byte-exact hand-over of buffered data, callers' reaction to errHijacked.",
 }
 
@@ -43,6 +43,7 @@ func init() {
 			if id == "C16" {
 				timeoutProducerRule(p, r, "C16")
 				timeoutSemaphoreRule(p, r)
+				handlerCannotWriteConn(p, r)
 			}
 			if id == "C14" {
 				connStateCallersRule(p, r)
@@ -2103,4 +2104,151 @@ func listMemberTrimRule(p *Prog, r *Report) {
 			"bytes compared: "+strings.Join(have, ", ")+" - a member preceded or followed by the other optional-whitespace character keeps it and no longer equals 'close': the request asked for close and the connection stays open (and a client reuses a connection whose response said close)")
 	})
 	r.Floor("R6", "member-trimming routines of the list scanner", n, 1)
+}
+
+// timeoutFenced: the instruction is only reached with the ctx's timeout lock held (a Lock call on a mutex field of
+// the RequestCtx dominates it and no explicit Unlock lies between) and after ctx.timeoutResponse was found nil
+// under that lock; the installation of the timeout response takes the same lock (checked by the caller).
+func timeoutFenced(f *ssa.Function, at ssa.Instruction) bool {
+	var lock ssa.Instruction
+	for _, b := range f.Blocks {
+		for _, in := range b.Instrs {
+			c, ok := in.(*ssa.Call)
+			if !ok || c.Call.StaticCallee() == nil || c.Call.StaticCallee().Name() != "Lock" || recvTypeName(c.Call.StaticCallee()) != "Mutex" || len(c.Call.Args) == 0 {
+				continue
+			}
+			if fa, ok := c.Call.Args[0].(*ssa.FieldAddr); ok && typeNameOf(fa.X) == "RequestCtx" && dominatesInstr(in, at) {
+				lock = in
+			}
+		}
+	}
+	if lock == nil {
+		return false
+	}
+	// no explicit Unlock between the Lock and the write
+	unl := func(i ssa.Instruction) bool {
+		c, ok := i.(*ssa.Call)
+		return ok && c.Call.StaticCallee() != nil && c.Call.StaticCallee().Name() == "Unlock" && recvTypeName(c.Call.StaticCallee()) == "Mutex"
+	}
+	if hit, _ := reachAvoiding(f, lock, unl, func(i ssa.Instruction) bool { return i == at }, nil); hit != nil {
+		// an Unlock is reachable before the write on some path: require that it cannot precede the write
+		if h2, _ := reachAvoiding(f, hit, func(i ssa.Instruction) bool { return i == at }, nil, nil); h2 != nil {
+			return false
+		}
+	}
+	// the write is control-dependent on timeoutResponse == nil, tested after the Lock
+	for _, g := range guardsOfDepth(at.Block(), 0) {
+		if !strings.Contains(g.Atom, "timeoutResponse") {
+			continue
+		}
+		if bo, ok := g.Cond.(*ssa.BinOp); ok && (bo.Op == token.NEQ && !g.Pol || bo.Op == token.EQL && g.Pol) {
+			if ci, ok := g.Cond.(ssa.Instruction); ok && dominatesInstr(lock, ci) {
+				return true
+			}
+		}
+	}
+	return false
+}
+
+// handlerCannotWriteConn (C16.R8): after a timeout the handler goroutine keeps its RequestCtx and goes on using it;
+// that is harmless only because nothing it can do through the ctx reaches the connection - the response it builds
+// is dropped with the ctx. Every exported RequestCtx method is therefore checked: none may (through module callees)
+// write to the connection - take a connection writer with acquireWriter, or call Write on the ctx's net.Conn. One
+// that does puts bytes on the wire after, or in the middle of, the timeout response.
+func handlerCannotWriteConn(p *Prog, r *Report) {
+	acqW := p.Func("acquireWriter")
+	if acqW == nil {
+		r.Undecided("R8", "acquireWriter", "not found")
+		return
+	}
+	writes := map[*ssa.Function]string{}
+	var reach func(f *ssa.Function, depth int, seen map[*ssa.Function]bool) string
+	reach = func(f *ssa.Function, depth int, seen map[*ssa.Function]bool) string {
+		if f == nil || f.Blocks == nil || seen[f] || depth < 0 {
+			return ""
+		}
+		seen[f] = true
+		if w, ok := writes[f]; ok {
+			return w
+		}
+		res := ""
+		allCalls(f, func(b *ssa.BasicBlock, c ssa.CallInstruction) {
+			if res != "" {
+				return
+			}
+			if _, isGo := c.(*ssa.Go); isGo {
+				return
+			}
+			callee := c.Common().StaticCallee()
+			switch {
+			case callee == acqW && timeoutFenced(f, c):
+				// taken under the timeout fence: allowed
+			case callee == acqW:
+				res = "acquireWriter at " + p.Pos(c.Pos())
+			case c.Common().IsInvoke() && c.Common().Method.Name() == "Write" && typeIsNetConn(c.Common().Value.Type()):
+				if _, fv := loadedField(c.Common().Value); fv != nil && fv.Name() == "c" {
+					res = "conn.Write at " + p.Pos(c.Pos())
+				}
+			case callee != nil && inModule(callee) && recvTypeName(callee) == "RequestCtx":
+				if w := reach(callee, depth-1, seen); w != "" {
+					res = "through " + callee.Name() + ": " + w
+				}
+			}
+		})
+		writes[f] = res
+		return res
+	}
+	n := 0
+	for _, fn := range p.funcsIn("") {
+		if recvTypeName(fn) != "RequestCtx" || fn.Object() == nil || !fn.Object().Exported() {
+			continue
+		}
+		n++
+		w := reach(fn, 3, map[*ssa.Function]bool{})
+		if w == "" {
+			continue // counted, nothing to report
+		}
+		r.Check("R8", "RequestCtx."+fn.Name()+" does not write to the connection", false, p.Pos(fn.Pos()),
+			"the method, which a handler goroutine can still call after its request timed out, writes to the connection ("+w+"): the bytes arrive after (or inside) the timeout response and are taken for the next response")
+	}
+	r.Check("R8", "exported RequestCtx methods were examined for writes to the connection", n >= 50, "server.go", fmt.Sprintf("%d methods examined", n))
+	// the other side of the fence: a timeout response is installed with the same lock held
+	ninst := 0
+	for _, fn := range p.funcsIn("") {
+		if recvTypeName(fn) != "RequestCtx" {
+			continue
+		}
+		for _, b := range fn.Blocks {
+			for _, in := range b.Instrs {
+				st, ok := in.(*ssa.Store)
+				if !ok || isNilConst(st.Val) {
+					continue
+				}
+				if _, fv := fieldOfAddr(st.Addr); fv == nil || fv.Name() != "timeoutResponse" {
+					continue
+				}
+				ninst++
+				held := false
+				for _, b2 := range fn.Blocks {
+					for _, i2 := range b2.Instrs {
+						c, ok := i2.(*ssa.Call)
+						if !ok || c.Call.StaticCallee() == nil || c.Call.StaticCallee().Name() != "Lock" || len(c.Call.Args) == 0 {
+							continue
+						}
+						if fa, ok := c.Call.Args[0].(*ssa.FieldAddr); ok && typeNameOf(fa.X) == "RequestCtx" && dominatesInstr(i2, in) {
+							if hit, _ := reachAvoiding(fn, i2, func(i ssa.Instruction) bool { return i == in }, func(i ssa.Instruction) bool {
+								cc, ok := i.(*ssa.Call)
+								return ok && cc.Call.StaticCallee() != nil && cc.Call.StaticCallee().Name() == "Unlock"
+							}, nil); hit != nil {
+								held = true
+							}
+						}
+					}
+				}
+				r.Check("R8", funcName(fn)+": the timeout response is installed under the ctx's timeout lock", held, p.Pos(st.Pos()),
+					"ctx.timeoutResponse is assigned without the lock the handler-side connection writes take: a write that has already passed its 'not timed out' test can run concurrently with the serve loop writing the timeout response")
+			}
+		}
+	}
+	r.Floor("R8", "places that install a timeout response", ninst, 1)
 }
